@@ -62,6 +62,26 @@ type c09OtherB struct {
 	Kind, Name, Group string // schedule | validating | mutating | conversion
 	Inc               []string
 	From, To          string
+	Rules             [][2]string // conversion: the `conversions` of the binding (nil: the single rule From -> To)
+}
+
+// rules: the conversion rules of a kubernetesCustomResourceConversion binding, in configuration order.
+func (o c09OtherB) rules() [][2]string {
+	if o.Kind != "conversion" {
+		return nil
+	}
+	if o.Rules != nil {
+		return o.Rules
+	}
+	return [][2]string{{o.From, o.To}}
+}
+
+func (o c09OtherB) fromTo() (string, string) {
+	var fs, ts []string
+	for _, r := range o.rules() {
+		fs, ts = append(fs, r[0]), append(ts, r[1])
+	}
+	return joinStrs(fs), joinStrs(ts)
 }
 
 type c09Spec struct {
@@ -169,7 +189,11 @@ func (s *c09Spec) configJSON() []byte {
 			}
 		case "conversion":
 			m["crdName"] = "crontabs.stable.example.com"
-			m["conversions"] = []any{map[string]any{"fromVersion": o.From, "toVersion": o.To}}
+			var rs []any
+			for _, r := range o.rules() {
+				rs = append(rs, map[string]any{"fromVersion": r[0], "toVersion": r[1]})
+			}
+			m["conversions"] = rs
 			conv = append(conv, m)
 		}
 	}
@@ -290,7 +314,9 @@ func c09Start(r *Run, c *Case, spec *c09Spec) *c09Env {
 		c.Op(fmt.Sprintf("kb name=%s ns=%s jq=%s ast=%s keep=%d group=%s inc=%s types=%s", b.Name, b.NS, jqText, ast, keep, g4OptStr(b.Group), joinStrs(b.Inc), ts), "ok")
 	}
 	for _, o := range spec.Others {
-		c.Op(fmt.Sprintf("ob kind=%s name=%s group=%s inc=%s from=%s to=%s", o.Kind, o.Name, g4OptStr(o.Group), joinStrs(o.Inc), g4OptStr(o.From), g4OptStr(o.To)), "ok")
+		// from= / to=: the conversion rules of the binding, two parallel lists
+		fs, ts := o.fromTo()
+		c.Op(fmt.Sprintf("ob kind=%s name=%s group=%s inc=%s from=%s to=%s", o.Kind, o.Name, g4OptStr(o.Group), joinStrs(o.Inc), fs, ts), "ok")
 	}
 
 	e.h = hook.NewHook("c09-hook", script, false, false, "", log.NewNop())
@@ -628,18 +654,44 @@ func (e *c09Env) mkAdmission(kind, name, uid string) {
 	e.add(kind, bcs, bt, fmt.Sprintf("mk %s %s %s %d", kind, name, uid, e.obIndex(kind, name)))
 }
 
-// mkConversion: a request for the rule of the i-th `ob` binding (a conversion binding).
-func (e *c09Env) mkConversion(i int, uid string) {
-	name, from, to := e.spec.Others[i].Name, e.spec.Others[i].From, e.spec.Others[i].To
-	req := &apixv1.ConversionRequest{UID: types.UID(uid), DesiredAPIVersion: to}
-	rule := conversion.Rule{FromVersion: from, ToVersion: to}
+// mkConversion: a conversion request served by the r-th rule of the i-th `ob` binding (a conversion binding),
+// through the links the real EnableConversionBindings built and the real HandleConversionEvent. The answer
+// shows what the controller put into the context: binding name and the versions of the rule.
+func (e *c09Env) mkConversion(i, r int, uid string) {
+	o := e.spec.Others[i]
+	rl := o.rules()[r]
+	req := &apixv1.ConversionRequest{UID: types.UID(uid), DesiredAPIVersion: rl[1]}
+	rule := conversion.Rule{FromVersion: rl[0], ToVersion: rl[1]}
 	var bcs []bctx.BindingContext
 	if e.hc.CanHandleConversionEvent("crontabs.stable.example.com", req, rule) {
 		e.hc.HandleConversionEvent("crontabs.stable.example.com", req, rule, func(info controller.BindingExecutionInfo) {
 			bcs = append(bcs, info.BindingContext...)
 		})
 	}
-	e.add("conversion", bcs, htypes.KubernetesConversion, fmt.Sprintf("mk conversion %s %s %d", name, uid, i))
+	ans := fmt.Sprintf("ctx=%d", len(bcs))
+	for _, bc := range bcs {
+		e.ctxs = append(e.ctxs, bc)
+		e.btypes = append(e.btypes, htypes.KubernetesConversion)
+		ans += fmt.Sprintf(" binding=%s from=%s to=%s", bc.Binding, g4OptStr(bc.FromVersion), g4OptStr(bc.ToVersion))
+	}
+	e.c.Op(fmt.Sprintf("mk conversion %s %s %d %d", o.Name, uid, i, r), ans)
+	e.c.Note("ctx:conversion")
+	if len(o.rules()) > 1 {
+		e.c.Note(fmt.Sprintf("conversion:rule-%d-of-%d", r+1, len(o.rules())))
+	}
+}
+
+// mkConversions: one request for every rule of the i-th `ob` binding, in the given order of rules.
+func (e *c09Env) mkConversions(i int, uid *int, reverse bool) {
+	n := len(e.spec.Others[i].rules())
+	for k := 0; k < n; k++ {
+		r := k
+		if reverse {
+			r = n - 1 - k
+		}
+		*uid++
+		e.mkConversion(i, r, fmt.Sprintf("uid-%d", *uid))
+	}
 }
 
 // g4CanonContexts: parse the file, replace review objects by their uid, print canonically.
@@ -718,6 +770,27 @@ func (e *c09Env) run(idx []int) {
 				}
 			}
 			e.c.Oracle("snapshots " + joinInts(idx) + " " + joinInts(bits))
+			// the keys of `snapshots`, item by item: the binding's own includeSnapshotsFrom plus the kubernetes
+			// bindings of its group (`!` = no `snapshots`, `-` = an empty object)
+			keys := make([]string, len(items))
+			for i, it := range items {
+				sn, has := it["snapshots"]
+				if !has {
+					keys[i] = "!"
+					continue
+				}
+				var ks []string
+				if m, ok := sn.(map[string]any); ok {
+					for k := range m {
+						ks = append(ks, k)
+					}
+				} else {
+					ks = []string{"not-an-object"}
+				}
+				sort.Strings(ks)
+				keys[i] = joinStrs(ks)
+			}
+			e.c.Oracle("snapkeys " + joinInts(idx) + " " + strings.Join(keys, "|"))
 		}
 	} else {
 		e.c.Oracle("run " + joinInts(idx) + " " + strings.Fields(ans)[0])
@@ -842,7 +915,7 @@ func c09RawObj(ns, name string, replicas, a any) map[string]any {
 }
 
 func runC09(r *Run) {
-	r.Rule = "per case: one hook configuration (configVersion v1 or v0) rendered as JSON and loaded by the real loader: 1-3 kubernetes bindings (jq filter of the fragment: object/array/scalar/string/null results, string literals and object leaves whose content is itself a JSON text (3, true, null, an object, a quoted string), or none; 30% of the filters read through a leaf value and fail on some object states - such a state never exists before Synchronization and is followed at once, without a render, by the delete of the object (whose Deleted item is rendered) or by an update every filter accepts; keepFullObjectsInMemory on/off; group; includeSnapshotsFrom incl. self-include; executeHookOnEvent subset; one of two namespaces), optional onStartup, 0-3 schedule bindings (each with a crontab of its own; names from a small pool incl. unnamed, so that bindings of one type often share a name while only some of them include snapshots), kubernetesValidating, kubernetesMutating, 0-2 kubernetesCustomResourceConversion bindings (two rules, mostly one name) with group / includeSnapshotsFrom; real monitors on kube-client/fake; 0-3 objects before Synchronization, then 2-7 creates/updates/deletes through the dynamic tracker; every Synchronization/Event context the controllers produce plus schedule/admission/conversion/onStartup contexts is rendered alone and in combined arrays (2-4 contexts) through the real Hook.Run (file read back from a real bash hook) or ConvertBindingContextList(...).Json(). A case is non-trivial when it renders >= 3 context lists and at least one Event and one snapshot-carrying context; distinct = distinct op-line sequences."
+	r.Rule = "per case: one hook configuration (configVersion v1 or v0) rendered as JSON and loaded by the real loader: 1-3 kubernetes bindings (jq filter of the fragment: object/array/scalar/string/null results, string literals and object leaves whose content is itself a JSON text (3, true, null, an object, a quoted string), or none; 30% of the filters read through a leaf value and fail on some object states - such a state never exists before Synchronization and is followed at once, without a render, by the delete of the object (whose Deleted item is rendered) or by an update every filter accepts; keepFullObjectsInMemory on/off; group; includeSnapshotsFrom incl. self-include; executeHookOnEvent subset; one of two namespaces), optional onStartup, 0-3 schedule bindings (each with a crontab of its own; names from a small pool incl. unnamed, so that bindings of one type often share a name while only some of them include snapshots), kubernetesValidating, kubernetesMutating, 0-2 kubernetesCustomResourceConversion bindings (1-3 conversions each, all rules of the hook distinct, versions with or without the API group, mostly one name; a request for one rule or for every rule of a binding in either order, through the real EnableConversionBindings + HandleConversionEvent) with group / includeSnapshotsFrom; every 4th v1 hook in big-group mode: a group of 2-8 (mostly 3, 5, 6, 7) kubernetes bindings among 2-3 outside ones, members of any type naming one or two outside bindings in their own includeSnapshotsFrom; real monitors on kube-client/fake; 0-3 objects before Synchronization, then 2-7 creates/updates/deletes through the dynamic tracker; every Synchronization/Event context the controllers produce plus schedule/admission/conversion/onStartup contexts is rendered alone and in combined arrays (2-4 contexts) through the real Hook.Run (file read back from a real bash hook) or ConvertBindingContextList(...).Json(). A case is non-trivial when it renders >= 3 context lists and at least one Event and one snapshot-carrying context; distinct = distinct op-line sequences."
 
 	// ---- corpus: the counterexamples of the repaired defects
 	corpus := []struct {
@@ -1078,7 +1151,7 @@ func runC09(r *Run) {
 				if o.Kind == "schedule" {
 					e.mkSchedule(i)
 				} else {
-					e.mkConversion(i, fmt.Sprintf("uid-%d", i))
+					e.mkConversion(i, 0, fmt.Sprintf("uid-%d", i))
 				}
 			}
 			if !e.change("put", ns, "o2", c08Obj(ns, "o2", 2, "y", 0)) {
@@ -1100,6 +1173,122 @@ func runC09(r *Run) {
 			e.run(fwd)
 		})
 	}
+
+	// ---- conversion bindings with several `conversions`: a request for every rule (not only the last one),
+	//      through the real EnableConversionBindings + HandleConversionEvent; the item carries the
+	//      fromVersion / toVersion of the rule the hook is run for
+	convCorpus := []struct {
+		desc   string
+		others []c09OtherB
+	}{
+		{"one conversion binding with three conversions (versions with the API group)",
+			[]c09OtherB{{Kind: "conversion", Name: "conv1", Inc: []string{"k1"}, Rules: [][2]string{
+				{"stable.example.com/v1alpha1", "stable.example.com/v1beta1"}, {"stable.example.com/v1beta1", "stable.example.com/v1"},
+				{"stable.example.com/v1alpha1", "stable.example.com/v1"}}}}},
+		{"two conversion bindings with two conversions each, the second in the group of the kubernetes binding",
+			[]c09OtherB{{Kind: "conversion", Name: "up", Rules: [][2]string{{"v1", "v2"}, {"v2", "v3"}}},
+				{Kind: "conversion", Name: "down", Group: "g1", Rules: [][2]string{{"v3", "v2"}, {"v2", "v1"}}}}},
+	}
+	for i, cc := range convCorpus {
+		cc := cc
+		r.One(18+i, func(c *Case, _ *Rng) {
+			c.Desc = "corpus: conversion rules: " + cc.desc
+			c.Nontrivial = true
+			ns := fmt.Sprintf("c09-%d-a", c.Idx)
+			spec := &c09Spec{Version: "v1", KBs: []c09KB{{Name: "k1", NS: ns, Keep: true, Group: "g1"}}, Others: cc.others}
+			e := c09Start(r, c, spec)
+			defer e.close()
+			if e == nil {
+				return
+			}
+			if !e.change("put", ns, "o1", c08Obj(ns, "o1", 1, "x", 0)) || !e.sync() {
+				return
+			}
+			uid := 0
+			for i := range spec.Others {
+				e.mkConversions(i, &uid, false)
+			}
+			for i := range spec.Others {
+				e.mkConversions(i, &uid, true)
+			}
+			n := len(e.ctxs)
+			var fwd, rev []int
+			for i := 1; i < n; i++ {
+				e.run([]int{i})
+				fwd = append(fwd, i)
+				rev = append([]int{i}, rev...)
+			}
+			e.run(fwd)
+			e.run(rev)
+			c.Note("corpus:conversion-rules")
+		})
+	}
+
+	// ---- groups of 1..8 kubernetes bindings whose members (kubernetes, schedule, validating, mutating,
+	//      conversion bindings) carry different extra includeSnapshotsFrom lists (bindings outside the group):
+	//      `snapshots` of every member = its own list + the kubernetes bindings of the group
+	r.Cases(120, 16, 8, func(c *Case, _ *Rng) {
+		g := (c.Idx-120)%8 + 1
+		swap := (c.Idx-120)/8 == 1 // second half: the members' extra lists in the other arrangement
+		nsA, nsB := fmt.Sprintf("c09-%d-a", c.Idx), fmt.Sprintf("c09-%d-b", c.Idx)
+		c.Desc = fmt.Sprintf("group sweep: %d kubernetes bindings in group g1, members with different extra includeSnapshotsFrom (swap=%v)", g, swap)
+		x := []string{"x1", "x2"}
+		if swap {
+			x = []string{"x2", "x1"}
+		}
+		spec := &c09Spec{Version: "v1", KBs: []c09KB{{Name: "x1", NS: nsB, Keep: true}, {Name: "x2", NS: nsB, Keep: false, F: g4Path("spec", "replicas")}}}
+		for i := 1; i <= g; i++ {
+			b := c09KB{Name: fmt.Sprintf("k%d", i), NS: nsA, Keep: i%2 == 1, Group: "g1", Types: []kemtypes.WatchEventType{}}
+			switch {
+			case i == 1:
+				b.Types = nil
+				b.Inc = []string{x[0]}
+			case i == 2:
+				b.Inc = []string{x[1]}
+			case i == 4:
+				b.Inc = []string{x[1], x[0]}
+			}
+			spec.KBs = append(spec.KBs, b)
+		}
+		spec.Others = []c09OtherB{{Kind: "schedule", Name: "s1", Group: "g1", Inc: []string{x[0]}},
+			{Kind: "schedule", Name: "s2", Group: "g1", Inc: []string{x[1]}},
+			{Kind: "validating", Name: "v1.example.com", Group: "g1", Inc: []string{x[1]}},
+			{Kind: "mutating", Name: "m1.example.com", Group: "g1", Inc: []string{x[0]}},
+			{Kind: "conversion", Name: "conv1", Group: "g1", Inc: []string{x[1]}, Rules: [][2]string{{"v1", "v2"}, {"v2", "v3"}}},
+			{Kind: "schedule", Name: "s3", Group: "g1"}}
+		e := c09Start(r, c, spec)
+		defer e.close()
+		if e == nil {
+			return
+		}
+		ok := e.change("put", nsA, "o1", c08Obj(nsA, "o1", 1, "x", 0)) && e.change("put", nsB, "o2", c08Obj(nsB, "o2", 4, "z", 0)) && e.sync()
+		if !ok {
+			return
+		}
+		if !e.change("put", nsA, "o3", c08Obj(nsA, "o3", 2, "y", 0)) {
+			return
+		}
+		uid := 0
+		for i, o := range spec.Others {
+			uid++
+			switch o.Kind {
+			case "schedule":
+				e.mkSchedule(i)
+			case "conversion":
+				e.mkConversions(i, &uid, swap)
+			default:
+				e.mkAdmission(o.Kind, o.Name, fmt.Sprintf("uid-%d", uid))
+			}
+		}
+		all := []int{}
+		for i := range e.ctxs {
+			e.run([]int{i})
+			all = append(all, i)
+		}
+		e.run(all)
+		c.Nontrivial = true
+		c.Note(fmt.Sprintf("sweep:group-of-%d", g))
+	})
 
 	// ---- systematic sweep: every combination of the options the contract mentions
 	//   version v1: filter result kind (none/object/scalar/array/null/string) x keepFullObjectsInMemory x group x
@@ -1127,7 +1316,7 @@ func runC09(r *Run) {
 			Others: []c09OtherB{{Kind: "schedule", Name: "s1", Group: group, Inc: inc},
 				{Kind: "validating", Name: "v1.example.com", Group: group, Inc: inc},
 				{Kind: "mutating", Name: "m1.example.com", Group: group, Inc: inc},
-				{Kind: "conversion", Name: "conv1", Group: group, Inc: inc, From: "v1", To: "v2"}}}
+				{Kind: "conversion", Name: "conv1", Group: group, Inc: inc, Rules: [][2]string{{"v1", "v2"}, {"v3", "v4"}, {"v1", "v3"}}[:2+c.Idx%2]}}}
 		// twins: a second schedule binding called "s1" and a second conversion binding called "conv1" (other
 		// crontab / rule), ungrouped, including snapshots exactly when the first one does not; they come
 		// before their namesakes when full objects are dropped, after them otherwise
@@ -1164,7 +1353,8 @@ func runC09(r *Run) {
 			case "schedule":
 				e.mkSchedule(i)
 			case "conversion":
-				e.mkConversion(i, fmt.Sprintf("uid-%d", uid))
+				// a request for every rule of the binding; last rule first when full objects are dropped
+				e.mkConversions(i, &uid, !keep)
 			default:
 				e.mkAdmission(o.Kind, o.Name, fmt.Sprintf("uid-%d", uid))
 			}
@@ -1218,10 +1408,19 @@ func runC09(r *Run) {
 		c.Note("sweep:v0")
 	})
 	r.Exhaust = true
-	r.Extra["exhaustive_scope"] = "option sweep: v1 = 6 filter result kinds x keepFullObjectsInMemory x group x 3 includeSnapshotsFrom shapes (72 hooks with kubernetes/schedule/validating/mutating/conversion/onStartup contexts, each with a second schedule and a second conversion binding of the same name and the complementary include option, before or after its namesake), v0 = 6 filter kinds x 4 event lists (24 hooks); the cluster histories are sampled, not enumerated"
+	r.Extra["exhaustive_scope"] = "option sweep: v1 = 6 filter result kinds x keepFullObjectsInMemory x group x 3 includeSnapshotsFrom shapes (72 hooks with kubernetes/schedule/validating/mutating/conversion/onStartup contexts, the conversion binding with 2 or 3 conversions and a request for every rule, each with a second schedule and a second conversion binding of the same name and the complementary include option, before or after its namesake), v0 = 6 filter kinds x 4 event lists (24 hooks); group sweep = groups of 1..8 kubernetes bindings x 2 arrangements of the members' own includeSnapshotsFrom (16 hooks, every member's context rendered); the cluster histories are sampled, not enumerated"
 
 	n := r.N(300, 10000)
 	r.Cases(200, n, 12, func(c *Case, rng *Rng) { c09Random(r, c, rng) })
+}
+
+func c09Perm(rng *Rng, n int) []int {
+	p := make([]int, n)
+	for i := range p {
+		p[i] = i
+	}
+	rng.Shuffle(n, func(i, j int) { p[i], p[j] = p[j], p[i] })
+	return p
 }
 
 func c09Random(r *Run, c *Case, rng *Rng) {
@@ -1233,12 +1432,44 @@ func c09Random(r *Run, c *Case, rng *Rng) {
 	v0 := spec.Version == "v0"
 	spec.OnStartup = rng.Chance(40)
 	nkb := rng.Range(1, 3)
-	kbNames := []string{"k1", "k2", "k3"}[:nkb]
+	// big-group mode (v1, every 4th hook): one group g1 of 2..8 kubernetes bindings plus 2-3 kubernetes bindings
+	// outside it; the members of the group (of any type) mostly name one or two of the outside bindings in
+	// their own includeSnapshotsFrom, so that members of one group have different effective lists
+	bigGroup, inGroup, outside := !v0 && rng.Chance(25), map[string]bool{}, []string{}
+	if bigGroup {
+		gsize := PickOne(rng, []int{3, 3, 5, 6, 7, 2, 4, 8})
+		nkb = gsize + rng.Range(2, 3)
+		for _, i := range c09Perm(rng, nkb)[:gsize] {
+			inGroup[fmt.Sprintf("k%d", i+1)] = true
+		}
+		c.Note(fmt.Sprintf("big-group:%d", gsize))
+	}
+	kbNames := []string{"k1", "k2", "k3", "k4", "k5", "k6", "k7", "k8", "k9", "k10", "k11"}[:nkb]
+	for _, n := range kbNames {
+		if !inGroup[n] {
+			outside = append(outside, n)
+		}
+	}
 	groups := []string{"", "", "g1", "g2"}
+	if bigGroup {
+		groups = []string{"g1", "g1", "g1", ""}
+	}
 	pickInc := func() []string {
 		var inc []string
 		if v0 {
 			return nil
+		}
+		if bigGroup {
+			switch k := rng.Intn(100); {
+			case k < 60:
+				inc = []string{PickOne(rng, outside)}
+			case k < 75:
+				p := c09Perm(rng, len(outside))
+				inc = []string{outside[p[0]], outside[p[1]]}
+			case k < 85:
+				inc = []string{PickOne(rng, kbNames), PickOne(rng, outside)}
+			}
+			return inc
 		}
 		for _, n := range kbNames {
 			if rng.Chance(35) {
@@ -1272,9 +1503,18 @@ func c09Random(r *Run, c *Case, rng *Rng) {
 			}
 		} else {
 			b.Group = PickOne(rng, groups)
+			if bigGroup {
+				b.Group = ""
+				if inGroup[nm] {
+					b.Group = "g1"
+				}
+			}
 			b.Inc = pickInc()
 			if rng.Chance(50) {
 				b.Types = g4SubsetTypes(rng.Intn(8))
+			}
+			if bigGroup && rng.Chance(70) {
+				b.Types = []kemtypes.WatchEventType{} // many bindings: most of them snapshot-only
 			}
 		}
 		spec.KBs = append(spec.KBs, b)
@@ -1306,10 +1546,24 @@ func c09Random(r *Run, c *Case, rng *Rng) {
 			spec.Others = append(spec.Others, c09OtherB{Kind: "mutating", Name: "m1.example.com", Group: PickOne(rng, groups), Inc: pickInc()})
 		}
 		if rng.Chance(35) {
-			spec.Others = append(spec.Others, c09OtherB{Kind: "conversion", Name: "conv1", Group: PickOne(rng, groups), Inc: pickInc(), From: "v1alpha1", To: "v1beta1"})
-			if rng.Chance(40) { // a second conversion binding (another rule of the same CRD), mostly under the same name
+			// every conversion binding has 1-3 `conversions`; all rules of the hook are distinct (the links of the
+			// controller are keyed by CRD and rule); versions with or without the API group
+			pool := [][2]string{{"v1alpha1", "v1beta1"}, {"v1beta1", "v1"}, {"v1alpha1", "v1"}, {"v1", "v1beta1"},
+				{"stable.example.com/v1alpha1", "stable.example.com/v1beta1"}, {"stable.example.com/v1beta1", "stable.example.com/v1"}}
+			perm := c09Perm(rng, len(pool))
+			take := func() [][2]string {
+				n := PickOne(rng, []int{1, 2, 2, 3})
+				var rs [][2]string
+				for ; n > 0; n-- {
+					rs = append(rs, pool[perm[0]])
+					perm = perm[1:]
+				}
+				return rs
+			}
+			spec.Others = append(spec.Others, c09OtherB{Kind: "conversion", Name: "conv1", Group: PickOne(rng, groups), Inc: pickInc(), Rules: take()})
+			if rng.Chance(40) { // a second conversion binding (other rules of the same CRD), mostly under the same name
 				spec.Others = append(spec.Others, c09OtherB{Kind: "conversion", Name: PickOne(rng, []string{"conv1", "conv1", "conv2"}),
-					Group: PickOne(rng, groups), Inc: pickInc(), From: "v1beta1", To: "v1"})
+					Group: PickOne(rng, groups), Inc: pickInc(), Rules: take()})
 			}
 		}
 	}
@@ -1424,7 +1678,12 @@ func c09Random(r *Run, c *Case, rng *Rng) {
 				case "validating", "mutating":
 					e.mkAdmission(o.Kind, o.Name, fmt.Sprintf("uid-%d", uid))
 				case "conversion":
-					e.mkConversion(i, fmt.Sprintf("uid-%d", uid))
+					// a request for one rule of the binding, or for every rule (in either order)
+					if n := len(o.rules()); rng.Chance(50) {
+						e.mkConversion(i, rng.Intn(n), fmt.Sprintf("uid-%d", uid))
+					} else {
+						e.mkConversions(i, &uid, rng.Bool())
+					}
 				}
 			}
 		}
